@@ -33,6 +33,8 @@ class Tap:
             self.log.append((obs_idx - 1, mt.expand_now, mt.max_lattice_width,
                              [(list(m.key), float(m.logprob), m.delayed) for m in col]))
             yield obs_idx
+FUZZ = {"thorough": {"runs": 15000, "seed_inputs": 16, "max_len": 4096,
+                     "include": ("leuvenmapmatching.matcher", "leuvenmapmatching.util", "leuvenmapmatching.map")}}
 
 
 def allowed_with_ties(srt, W):
